@@ -48,6 +48,15 @@ func verifDir() string {
 	return "/verif"
 }
 
+// evidenceDir is where evidence, logs and replay files go (overridable so that
+// self-tests against scratch trees do not overwrite the real evidence).
+func evidenceDir() string {
+	if d := os.Getenv("VERIF_EVIDENCE_DIR"); d != "" {
+		return d
+	}
+	return filepath.Join(verifDir(), "evidence")
+}
+
 func repoDir() string {
 	if d := os.Getenv("VERIF_REPO"); d != "" {
 		return d
@@ -121,7 +130,7 @@ type childOutcome struct {
 }
 
 func runChild(binPath string, fl flavor, prop, tier string, seed uint64, extraEnv []string, limit time.Duration) childOutcome {
-	logs := filepath.Join(verifDir(), "evidence", "logs")
+	logs := filepath.Join(evidenceDir(), "logs")
 	os.MkdirAll(logs, 0o755)
 	base := filepath.Join(logs, fmt.Sprintf("%s-%s-%s", prop, tier, fl.Name))
 	resPath := base + ".result.json"
@@ -237,7 +246,7 @@ func limitFor(tier string) time.Duration {
 func doCheck(prop, tier string) int {
 	start := time.Now()
 	seed, _ := strconv.ParseUint(os.Getenv("VERIF_SEED"), 10, 64)
-	evPath := filepath.Join(verifDir(), "evidence", prop+".json")
+	evPath := filepath.Join(evidenceDir(), prop+".json")
 	os.MkdirAll(filepath.Dir(evPath), 0o755)
 
 	var merged *mon.Result
@@ -399,7 +408,7 @@ func doCheck(prop, tier string) int {
 		fmt.Println(l)
 	}
 
-	replayDir := filepath.Join(verifDir(), "evidence", "replay")
+	replayDir := filepath.Join(evidenceDir(), "replay")
 	os.MkdirAll(replayDir, 0o755)
 	old, _ := filepath.Glob(filepath.Join(replayDir, prop+"-*.json"))
 	for _, o := range old {
